@@ -1,6 +1,6 @@
 #!/bin/bash
 # confirm that the repository's relevant test modules still pass with each seeded change applied (scratch worktree, removed afterwards)
-WT=/tmp/wt_seedchk
+WT=${SEEDCHK_WT:-/tmp/wt_seedchk}
 cd /repo && git worktree add -q --detach $WT HEAD
 declare -A TESTS
 TESTS[C01]="tangelo/linq/tests tangelo/toolboxes/ansatz_generator/tests/test_ansatz_util.py"
@@ -23,7 +23,7 @@ TESTS[C20]="tangelo/linq/helpers/circuits/tests tangelo/linq/tests tangelo/algor
 TESTS[C04]="tangelo/toolboxes/molecular_computation/tests"
 TESTS[C08]="tangelo/algorithms/variational/tests/test_vqe_solver.py tangelo/algorithms/variational/tests/test_sa_vqe_solver.py"
 TESTS[C13]="tangelo/toolboxes/molecular_computation/tests tangelo/algorithms/classical/tests"
-for d in /verif/seeded/${1:-*}; do
+for d in $(ls -d /verif/seeded/${1:-*}); do
   id=$(basename $d); prop=${id%%-*}
   [ -f $d/tests_confirmed.txt ] && continue
   cd $WT && git checkout -q -- . && git apply $d/patch.diff || { echo "$id: patch does not apply"; continue; }
